@@ -10,6 +10,8 @@ import z3
 CVC5 = "/usr/bin/cvc5"
 DEFAULT_RLIMIT = int(os.environ.get("PYVC_RLIMIT", "8000000"))
 CVC5_TLIMIT_MS = int(os.environ.get("PYVC_CVC5_MS", "20000"))
+# the fall-back for what z3 leaves unknown decides a verdict, so its wall-clock limit is sized for a machine whose cores are all busy
+CVC5_FALLBACK_MS = int(os.environ.get("PYVC_CVC5_FALLBACK_MS", "90000"))
 
 
 def z3_check(pc, goal, rlimit=DEFAULT_RLIMIT):
@@ -60,7 +62,7 @@ def discharge(ob, rlimit=DEFAULT_RLIMIT, use_cvc5=True, both=False):
     ob.result, ob.model, ob.time, ob.backend = res, model, dt, "z3"
     if res == "unknown" and use_cvc5 and os.path.exists(CVC5):
         t0 = time.time()
-        r = cvc5_check(solver)
+        r = cvc5_check(solver, CVC5_FALLBACK_MS)
         ob.time += time.time() - t0
         if r == "unsat":
             ob.result = "proved"
